@@ -13,6 +13,7 @@ import Driver.C20
 import Driver.C11
 import Driver.C12
 import Driver.C04
+import Driver.C12V
 import Driver.C06
 import Driver.C13
 import Driver.C17
@@ -67,9 +68,13 @@ def dispatch (c : Conf) (op : String) (args : List String) (got : String) : Opti
     | none => none) <|> (C07.handle e01.cfg op args) <|> (C09.handle c.w c.size c.digs op args got) <|> (C14.handle op args) <|> (C15.handle c.w c.size op args got) <|> (C19.handle latch op args) <|> (C20.handle c.ep c.w op args got) <|> (C18.handle c.ep c.w op args got) <|> (C18.handleSel c.w op args got) <|> (C08.handle op args got) <|> (match c.ep2 with
     | some e => C11.handle e c.w op args got
     | none => none) <|> (match c.pc4 with
+    | some e => C12V.handle e op args got
+    | none => none) <|> (match c.pc4 with
     | some e => C04.handle e op args got
     | none => none) <|> (match c.pc4m with
     | some e => (C04.handleMap e op args got) <|> (C04.handleLine e op args got)
+    | none => none) <|> (match c.pc with
+    | some e => C12V.handleMul e c.ep c.ep2 c.w op args got
     | none => none) <|> (match c.pc with
     | some e => C12.handle e c.w op args got
     | none => none) <|> (C06.handle c.cp c.ep op args got) <|> (match c.map with
@@ -136,7 +141,7 @@ partial def loop (h : IO.FS.Stream) (out : IO.FS.Stream) (c : Conf) : IO Unit :=
     | [_, got] =>
       match C12.parseEnv got with
       | some e =>
-        let bad := C12.checkParam e
+        let bad := C12.checkParam e ++ (match C04.mkEnv e with | some e4 => C12V.hypotheses e4 | none => [])
         out.putStrLn (if bad.isEmpty then "ok pc_param" else "FAIL S model=[] spec=[" ++ String.intercalate ";" bad ++ "] got=[" ++ got ++ "]")
         loop h out { c with pc := some e, pc4 := C04.mkEnv e, pc4m := (C04.mkEnv e).bind C04.mkPEnv }
       | none =>
